@@ -96,7 +96,7 @@ struct Counters
 	uint64_t runs[3] = { 0, 0, 0 };
 	uint64_t eventsEnqueued = 0, dispatched = 0, taken = 0, cleared = 0, discardedByFault = 0, peeks = 0, endPhaseDispatched = 0;
 	uint64_t fifoChecked = 0, listenerFaultsFired = 0, slotRecycled = 0;
-	uint64_t waitsReturned = 0, waitForTrue = 0, waitForFalse = 0, terminalWithBlockedWaiter = 0, terminalBlockedLegit = 0, earlyReturnChecks = 0,
+	uint64_t waitsReturned = 0, waitForTrue = 0, waitForFalse = 0, terminalWithBlockedWaiter = 0, terminalBlockedLegit = 0, terminalInconclusive = 0, earlyReturnChecks = 0,
 		dqnScopes = 0, dqnDestroyedWithPending = 0, overlapRuns = 0;
 	uint64_t observations = 0, observedEmptyTrue = 0, observedEmptyDuringDispatch = 0, oracleEventsChecked = 0;
 	uint64_t perObj[4] = { 0, 0, 0, 0 };
@@ -227,6 +227,8 @@ struct Harness : ListenerSink, EvHooks
 	std::vector<DqnRec> dqns;
 	std::vector<int> consumeOrder; // event ids in consumption order (dispatch start / take)
 	std::vector<int> consumeTask;
+	std::vector<std::pair<long, long> > declines[MAXEV]; // per event: (invocation stamp of the processIf call, stamp of the decline)
+	long dispatchCallInv[MAXEV]; int dispatchCallKind[MAXEV];
 	std::vector<int> inCall[MAXT];  // events consumed by the library call in progress, per task
 	std::vector<std::pair<long, long> > procCalls; // [invoked, returned] of every processing call (returned < 0: in progress)
 	int openProc[MAXT];
@@ -242,10 +244,13 @@ struct Harness : ListenerSink, EvHooks
 	std::string error, errorClass;
 	int nKeys;
 	bool sawClear;
+	bool waiterBurnedOut;
+	long takenByLoops;
 
-	Harness(const Plan & p, int m) : plan(p), mode(m), q(nullptr), stop(false), liveDqn(0), sawClear(false)
+	Harness(const Plan & p, int m) : plan(p), mode(m), q(nullptr), stop(false), liveDqn(0), sawClear(false), waiterBurnedOut(false), takenByLoops(0)
 	{
 		for(int i = 0; i < MAXT; ++i) { curOpKind[i] = 0; curOpInv[i] = 0; unwinding[i] = false; faultEvent[i] = -1; openProc[i] = -1; }
+		for(int i = 0; i < MAXEV; ++i) { dispatchCallInv[i] = -1; dispatchCallKind[i] = 0; }
 		nKeys = std::max(1, std::min(3, plan.user(U_KEYS)));
 	}
 
@@ -275,6 +280,7 @@ struct Harness : ListenerSink, EvHooks
 		}
 		else {
 			r.how = H_DISPATCHED; r.byTask = me(); r.consStart = stamp.next();
+			dispatchCallInv[id] = curOpInv[me()]; dispatchCallKind[id] = curOpKind[me()];
 			consumeOrder.push_back(id); consumeTask.push_back(me());
 			inCall[me()].push_back(id);
 			if(s.phaseChecked) ++counters.dispatched; else ++counters.endPhaseDispatched;
@@ -296,7 +302,10 @@ struct Harness : ListenerSink, EvHooks
 		S().point("predicate");
 		if(e && e->val != checksum(id)) flag("payload-corrupt", "predicate saw event " + std::to_string(id) + " with value " + std::to_string(e->val));
 		if(id == STOP_ID) return true;
-		return ((mask >> (id & 7)) & 1) != 0;
+		const bool verdict = ((mask >> (id & 7)) & 1) != 0;
+		// processIf keeps what its predicate declines: the only legitimate way for a newer event to overtake this one (see the FIFO check)
+		if(!verdict && id >= 0 && id < MAXEV && curOpKind[me()] == O_PROCESS_IF) declines[id].push_back(std::make_pair(curOpInv[me()], stamp.next()));
+		return verdict;
 	}
 
 	// ---- EvHooks: a library-held instance of an event's payload was destroyed (last: no other is left)
@@ -480,7 +489,9 @@ struct Harness : ListenerSink, EvHooks
 		case O_DQN_CLOSE: closeDqn(task); break;
 		case O_WAITLOOP: {
 			int guard = 0, idle = 0;
-			while(!stop && ++guard < 120 && idle < 10) {
+			while(!stop && idle < 10) {
+				if(++guard >= 120) { waiterBurnedOut = true; break; }   // gave up polling: the terminal-state oracle is inconclusive for this run
+				const size_t consumedBefore = consumeOrder.size() + (size_t)takenByLoops;
 				OpRec r; r.task = task; r.kind = op.a == 0 ? (int)O_WAITLOOP : (int)O_WAITFOR; r.simStart = S().now; r.durNs = op.a == 0 ? -1 : durationNs(op.b);
 				r.inv = stamp.next();
 				if(op.a == 0) { ad.wait(); r.result = true; }
@@ -502,10 +513,12 @@ struct Harness : ListenerSink, EvHooks
 						if(id == STOP_ID || id < 0 || id >= MAXEV) continue;
 						EvRec & e = ev[id];
 						if(e.how != H_NONE) flag("consumed-twice", "event " + std::to_string(id) + " taken although already " + howName(e.how));
-						else { e.how = H_TAKEN; e.byTask = task; e.consStart = curOpInv[task]; e.consEnd = stamp.next(); ++counters.taken; }
+						else { e.how = H_TAKEN; e.byTask = task; e.consStart = curOpInv[task]; e.consEnd = stamp.next(); ++counters.taken; ++takenByLoops; }
 					}
 				}
 				curOpKind[task] = O_WAITLOOP;
+				// woken (or never blocked) but nothing to consume - another thread's call holds the events: poll politely
+				if(!stop && consumeOrder.size() + (size_t)takenByLoops == consumedBefore) S().spinYield("waiter.fruitless");
 			}
 			break;
 		}
@@ -563,7 +576,8 @@ struct Harness : ListenerSink, EvHooks
 			if(otherBlocked) out.fail("deadlock", "a task is blocked outside wait() with nothing runnable; " + render());
 			else if(waiterBlocked) {
 				++counters.terminalWithBlockedWaiter;
-				if(anyPendingReturned() && liveDqn == 0) {
+				if(waiterBurnedOut) ++counters.terminalInconclusive;   // a polling waiter gave up: "woken consumers drain the queue" does not hold for this run
+				else if(anyPendingReturned() && liveDqn == 0) {
 					out.fail("lost-wakeup", "every waiter is blocked in wait() while an enqueued event is pending and notification is enabled; " + render());
 				}
 				else ++counters.terminalBlockedLegit;
@@ -712,29 +726,29 @@ struct Harness : ListenerSink, EvHooks
 				return;
 			}
 		}
-		// per producer/consumer pair FIFO (one consuming task, order-preserving calls only)
-		// (exactly one task issues consuming calls, and none of them is processIf: with several consumers, or with a declining
-		// predicate, a put-back legitimately reorders events relative to newer ones)
+		// per producer/consumer pair FIFO (exactly one task issues consuming calls; with several consumers cross-task order is not promised).
+		// A newer event b may be consumed before an older event a of the same producer only if b was dispatched by a processIf call whose
+		// predicate had declined a earlier in that same call (sequentially: pending := declined ++ newer arrivals, so nothing else reorders).
 		std::set<int> consumers;
-		bool orderPreserving = true;
 		for(size_t t = 0; t < plan.tasks.size(); ++t) for(size_t i = 0; i < plan.tasks[t].size(); ++i) {
 			const int k = plan.tasks[t][i].k;
-			if(k == O_PROCESS_IF) orderPreserving = false;
 			if(k == O_PROCESS || k == O_PROCESS_ONE || k == O_PROCESS_IF || k == O_PROCESS_UNTIL || k == O_TAKE || k == O_CLEAR) consumers.insert((int)t);
 		}
-		if(consumers.size() == 1 && orderPreserving && mode == 6 && (A::kind == OBJ_EVENTQUEUE || A::kind == OBJ_SPIN)) {   // (an ordered queue list dispatches by key, not by arrival)
+		if(consumers.size() == 1 && mode == 6 && (A::kind == OBJ_EVENTQUEUE || A::kind == OBJ_SPIN)) {   // (an ordered queue list dispatches by key, not by arrival)
 			++counters.fifoChecked;
-			int lastOfProducer[MAXT];
-			for(int i = 0; i < MAXT; ++i) lastOfProducer[i] = -1;
-			for(size_t i = 0; i < consumeOrder.size(); ++i) {
-				const int id = consumeOrder[i];
-				const int p = ev[id].producer;
-				if(p < 0 || p >= MAXT) continue;
-				if(lastOfProducer[p] >= 0 && ev[lastOfProducer[p]].enqInv > ev[id].enqInv) {
-					out.fail("fifo-violated", "event " + std::to_string(id) + " consumed after event " + std::to_string(lastOfProducer[p]) + " of the same producer although enqueued before it; " + render());
+			for(size_t i = 0; i < consumeOrder.size(); ++i) for(size_t j = i + 1; j < consumeOrder.size(); ++j) {
+				const int b = consumeOrder[i], a = consumeOrder[j];   // b consumed first
+				if(ev[a].producer != ev[b].producer || ev[a].producer < 0) continue;
+				if(!(ev[a].enqRet < ev[b].enqInv)) continue;           // a's enqueue had returned before b's was invoked
+				bool excused = false;
+				if(ev[b].how == H_DISPATCHED && dispatchCallKind[b] == O_PROCESS_IF) {
+					for(size_t d = 0; d < declines[a].size() && !excused; ++d) if(declines[a][d].first == dispatchCallInv[b] && declines[a][d].second < ev[b].consStart) excused = true;
+				}
+				if(!excused) {
+					out.fail("fifo-violated", "event " + std::to_string(b) + " consumed before event " + std::to_string(a) + " of the same producer although enqueued after it"
+						+ (dispatchCallKind[b] == O_PROCESS_IF ? " (and the processIf call that dispatched it had not declined the older one)" : "") + "; " + render());
 					return;
 				}
-				lastOfProducer[p] = id;
 			}
 		}
 	}
@@ -776,7 +790,9 @@ static Op consumerOp(Rng & rng, int m, bool heter, int nextId)
 		op.k = r < 35 ? O_PROCESS : r < 65 ? O_PROCESS_ONE : r < 85 ? O_TAKE : O_CLEAR;
 	}
 	else if(m == 7) {
-		op.k = r < 40 ? O_PROCESS : r < 75 ? O_PROCESS_ONE : O_TAKE;
+		// processIf / processUntil put declined events back without any notification: the waiters' predicate must still see them
+		op.k = r < 30 ? O_PROCESS : r < 55 ? O_PROCESS_ONE : r < 70 ? O_TAKE : r < 86 ? O_PROCESS_IF : O_PROCESS_UNTIL;
+		if(op.k == O_PROCESS_IF || op.k == O_PROCESS_UNTIL) op.a = (int)rng.below(256);
 	}
 	else {
 		op.k = r < 22 ? O_PROCESS : r < 42 ? O_PROCESS_ONE : r < 57 ? O_PROCESS_IF : r < 69 ? O_PROCESS_UNTIL : r < 82 ? O_TAKE : r < 89 ? O_PEEK : r < 95 ? O_CLEAR : O_EMPTYQ;
@@ -925,7 +941,7 @@ void statsJson(std::string & out)
 	  << ",\"cleared\":" << counters.cleared << ",\"discarded_by_listener_exception\":" << counters.discardedByFault << ",\"peeks\":" << counters.peeks
 	  << ",\"dispatched_in_end_phase\":" << counters.endPhaseDispatched << ",\"fifo_histories_checked\":" << counters.fifoChecked
 	  << ",\"waits_returned\":" << counters.waitsReturned << ",\"waitfor_true\":" << counters.waitForTrue << ",\"waitfor_false\":" << counters.waitForFalse
-	  << ",\"terminal_states_with_blocked_waiter\":" << counters.terminalWithBlockedWaiter << ",\"terminal_blocked_legitimately\":" << counters.terminalBlockedLegit
+	  << ",\"terminal_states_with_blocked_waiter\":" << counters.terminalWithBlockedWaiter << ",\"terminal_blocked_legitimately\":" << counters.terminalBlockedLegit << ",\"terminal_inconclusive_polling_waiter_gave_up\":" << counters.terminalInconclusive
 	  << ",\"early_return_checks\":" << counters.earlyReturnChecks << ",\"dqn_scopes\":" << counters.dqnScopes
 	  << ",\"last_dqn_destroyed_with_event_pending\":" << counters.dqnDestroyedWithPending
 	  << ",\"preempted_between_predicate_and_block\":" << probes().cvPreBlockPreempted << ",\"notify_chose_among_several_waiters\":" << probes().notifyChoseAmongSeveral
